@@ -400,3 +400,6 @@ def replay(doc):
     finally:
         if _SCRATCH:
             shutil.rmtree(_SCRATCH, ignore_errors=True)
+
+
+RULE += ' Also (wave 9): record objects changed by the caller after reading (later reads are what the file holds), shallow copies of the opened object with the original dropped and collected.'
